@@ -48,7 +48,7 @@ Qed.
 
 (* events that are not a reaction of the peer to the opening handshake *)
 Definition no_open_reaction (e : event) : Prop :=
-  match e with EHandshake | EBadHandshake | EProxyBad | EPeerDrop _ => False | _ => True end.
+  match e with EHandshake | EBadHandshake | EConnectRaises _ | EProxyBad | EPeerDrop _ => False | _ => True end.
 Definition tick_before (F : N) (e : event) : Prop := match e with ETick t => t < F | _ => True end.
 
 Opaque openF.
